@@ -384,6 +384,45 @@ def reduction(e, lambdas=None, regime=None):
     return None
 
 
+def _loop_update(loop, rep, d, which):
+    """the statement of a tree-walk loop that stores the node's value (`h[node] = …`), with the locals of the loop body substituted into its right-hand side.  A local that is
+    defined on two branches of an `if` inside the loop makes the reduction depend on something else than the k regime (on the topology: 'both children are tips'): forward
+    and inverse then only agree if they make the same distinction, which is reported — the regimes are the only case distinction the two maps share."""
+    import copy
+    stores = [st for st in ast.walk(loop) if isinstance(st, ast.Assign) and len(st.targets) == 1 and isinstance(st.targets[0], ast.Subscript) and isinstance(st.targets[0].value, ast.Name)]
+    if len(stores) != 1:
+        raise Unsupported(loop, f"{len(stores)} stores of a node value in the tree-walk loop")
+    local = {}
+    for st in ast.walk(loop):
+        if isinstance(st, ast.Assign) and len(st.targets) == 1 and isinstance(st.targets[0], ast.Name):
+            local.setdefault(st.targets[0].id, []).append(st)
+    conditional = sorted(n for n, ds in local.items() if len(ds) > 1)
+    upd = copy.deepcopy(stores[0])
+    used = {n.id for n in ast.walk(upd.value) if isinstance(n, ast.Name)}
+    hit = [n for n in conditional if n in used]
+    key = f"DifferenceNodeHeightTransform.{which}::reduction-chosen-by-the-regime-only"
+    if hit:
+        rep.bad('C06.S', key, where(d.module, local[hit[0]][0]), {'locals_defined_on_two_branches': hit},
+                f"DifferenceNodeHeightTransform.{which} computes `{hit[0]}` differently on two branches inside the tree walk (`{norm_text(local[hit[0]][0])[:50]}` / "
+                f"`{norm_text(local[hit[0]][1])[:50]}`): the maximum over the children depends on more than the k regime, and the other direction of the transform does not make "
+                f"that distinction — inverse(forward(x)) ≠ x where the branches differ")
+        raise Unsupported(loop, 'reduction chosen per node')
+    rep.ok('C06.S', key, where(d.module, stores[0]), None)
+
+    class Sub(ast.NodeTransformer):
+        def visit_Name(self, n):
+            if isinstance(n.ctx, ast.Load) and n.id in local and len(local[n.id]) == 1:
+                return self.visit(copy.deepcopy(local[n.id][0].value))
+            return n
+    for _ in range(3):
+        upd.value = Sub().visit(upd.value)
+    for n in ast.walk(upd):
+        for ch in ast.iter_child_nodes(n):
+            ch._parent = n
+    ast.copy_location(upd, stores[0])
+    return upd
+
+
 def check_shift(ctx, rep):
     d = ctx.classes.get(f"{TH}.DifferenceNodeHeightTransform")
     if d is None:
@@ -422,7 +461,7 @@ def check_shift(ctx, rep):
     if len(loops) != 1:
         raise Unsupported(call, 'forward loop not found')
     node, left, right = (e.id for e in loops[0].target.elts)
-    upd = [st for st in loops[0].body if isinstance(st, ast.Assign)][0]
+    upd = _loop_update(loops[0], rep, d, '_call')
     hname = ast.unparse(upd.targets[0].value)
     children = frozenset({f"{hname}[{left}]", f"{hname}[{right}]"})
     post = 'postorder' in ast.unparse(loops[0].iter)
@@ -454,7 +493,7 @@ def check_shift(ctx, rep):
             rep.bad('C06.S', f"DifferenceNodeHeightTransform._inverse::{label}::increment=height−max(children)", where(d.module, inv), None, 'inverse loop not found in this regime')
             continue
         n2, l2, r2 = (e.id for e in lp[0].target.elts)
-        u2 = [st for st in lp[0].body if isinstance(st, ast.Assign)][0]
+        u2 = _loop_update(lp[0], rep, d, '_inverse')
         ok = False
         facts = {'inverse': norm_text(u2)[:160], 'forward_reduction': str(fwd.get(reg))}
         if isinstance(u2.value, ast.BinOp) and isinstance(u2.value.op, ast.Sub) and isinstance(u2.value.left, ast.Subscript):
